@@ -11,6 +11,7 @@ def handlers : List (List String → Option String) := [
   CtxDb.handleDb,
   handleInput,
   Split.handleSplit,
+  Split.handleArgV,
   Doc.handleDoc,
   Legacy.handleLeg,
   EncB.handleEncP,
